@@ -169,6 +169,14 @@ impl GrammarBuilder {
         for mut terminal in grammar_terminals {
             let term_idx = self.get_term_idx();
             self.check_identifier(&terminal.name)?;
+            // Implicit STOP terminal is already registered at this point.
+            if self.terminals.contains_key(terminal.name.as_ref()) {
+                err!(
+                    format!("Terminal '{}' is already defined.", terminal.name),
+                    Some(self.file.clone()),
+                    terminal.name.span
+                )?
+            }
             self.terminals.insert(
                 terminal.name.as_ref().to_string(),
                 Terminal {
@@ -250,6 +258,13 @@ impl GrammarBuilder {
 
         for rule in rules {
             self.check_identifier(&rule.name)?;
+            if ["EMPTY", "AUG", "AUGL"].contains(&rule.name.as_ref().as_str()) {
+                err!(
+                    format!("'{}' is a reserved name.", rule.name),
+                    Some(self.file.clone()),
+                    rule.name.span
+                )?
+            }
             // Create new nonterm index if needed
             let nt_idx;
             if let Some(nonterminal) = self.nonterminals.get(rule.name.as_ref()) {
@@ -573,6 +588,16 @@ impl GrammarBuilder {
                 {
                     assign.symbol.index = Some(match symbol {
                         GrammarSymbol::Name(name) => {
+                            if name.as_ref() == "STOP" {
+                                err!(
+                                    format!(
+                                        "Implicit terminal 'STOP' can't be referenced in production '{}'.",
+                                        production_str
+                                    ),
+                                    Some(self.file.clone()),
+                                    name.span
+                                )?;
+                            }
                             if let Some(terminal) = self.terminals.get(name.as_ref()) {
                                 terminal.idx.symbol_index()
                             } else {
